@@ -16,6 +16,7 @@ RULES = {
     "C07.R4": "every route casts its result to the scale (activation) dtype last",
     "C07.R7": "operand invariant: every handler that re-lays out a per-axis tensor (t/transpose, cat/stack, moves, copy_) keeps the declared axis and the scale together, so the axis the matmul guards read is where the scale lies",
     "C07.R8": "the kernels are pure: no write to an operand (or to anything outside the call) is reachable from the linear function, the mm/bmm handlers or the library implementations - a scale updated in place makes the second evaluation differ from the reference (the effect rule C13.R3)",
+    "C07.R10": "the product of two scales is formed in float32: both factors are converted before they are multiplied (each scale is ~1e-2..1e-4, so their float16 product is subnormal or zero and loses most of its bits)",
     "C07.R9": "every batch shape and memory layout: the kernel helpers and the linear function flatten their operands with reshape, never with view (an operand arrives with whatever stride the caller's tensor has)",
     "C07.R5": "primitive preconditions: every call site of torch._int_mm / torch._weight_int8pack_mm carries the preconditions of the platform table; every route falls through to the default implementation",
     "C07.R6": "the bias is added once, after scaling",
@@ -58,6 +59,7 @@ def run(chk):
                     s = T(slabels, "float", "scales", (), ("w",))
                     if slabels == ():
                         continue  # a per-tensor scale only arises for out == 1; flatten() of a 0-d tensor has one element
+                a.strides = {"stride0", "lastdim"}  # the caller's activations: expanded, transposed, sliced - any strides
                 want = batch(r) + (L("out"),)
                 typed += check_results(chk, m, f, name, Interp(f, dict(zip(positional_params(f), (a, w, s))), helper_nodes).run(), want, f"rank {r + 1} activations, {sdesc} scales")
         chk.floor("C07.R1", typed, 1, f"{name} typed instances")
@@ -78,6 +80,7 @@ def run(chk):
         for r in ranks:
             for sdesc, slabels, _ in weight_scales():
                 a = T(batch(r) + (L("in"),), "code", "activations", {"act"})
+                a.strides = {"stride0", "lastdim"}
                 w = T((L("out"), L("in")), "code", "weights", {"w"})
                 s = T(slabels, "float", "scales", (), ("act", "w"))
                 res = Interp(li.fn, dict(zip(positional_params(li.fn), (a, w, s))), helper_nodes).run()
@@ -88,6 +91,7 @@ def run(chk):
                 check_results(chk, li.mi, li.fn, f"{li.fn.name}[{key}]", ok_r, want, f"rank {r + 1}, {sdesc} scales", pairing=False)
     route_guards(chk, routes, fns)
     accumulation(chk, fns)
+    handler_accumulation(chk)
     linear_forward(chk, helper_nodes)
     mm_handlers(chk)
     from ..core import views_on_inputs
@@ -102,6 +106,7 @@ def run(chk):
         chk.require("C07.R9", f"{m9.rel}:{f9.lineno}", not vs, f"{nm9}: operands are flattened with reshape ({[U(v)[:40] for v in vs]})", nm9, "view on an operand",
                     "non-contiguous activations (x.transpose(1, 2) fed to a quantized linear): RuntimeError `view size is not compatible` where the float linear works")
     chk.floor("C07.R9", n9, 3, "kernel functions scanned for view()")
+    scale_products(chk)
     if chk.pid == "C07":
         operand_invariants(chk)
         from ..effects import EffectGraph
@@ -122,7 +127,7 @@ def check_results(chk, mi, fn, qual, results, want, what, pairing=True):
         if status == "unknown":
             chk.unknown("C07.R1", site, f"{qual} ({what}; {path}): {val}")
         elif status == "typeerr":
-            rule = "C07.R2" if "not matched by its scales" in val else "C07.R1"
+            rule = "C07.R2" if "not matched by its scales" in val else ("C07.R5" if "(platform table)" in val and "without contiguous()" in val else "C07.R1")
             chk.bad(rule, site, qual, f"{qual}: {_gen(val)}", f"{qual} ({what}; path: {path}): {val}", f"{what}: shapes that only line up when the symbolic sizes coincide (e.g. square matrices) give silently wrong values, others raise")
         elif status == "raise":
             continue
@@ -288,6 +293,43 @@ def accumulation(chk, fns, rule="C07.R3"):
     chk.ok(rule, site, f"qbytes_mm accumulates in float32 for {n_ok} of {len(combos)} (scale dtype, activation dtype, weight dtype) combinations with half-precision scales")
 
 
+def handler_accumulation(chk, rule="C07.R3"):
+    """C07.R3 for the mm / bmm handlers: raw payloads handed to the float contraction are first cast to float32 (or wider)."""
+    repo = chk.repo
+    wide = ("torch.float32", "torch.float", "torch.float64", "torch.double")
+    n = 0
+    for h in handlers(repo)["qbytes"]:
+        if not set(h.ops) & {"aten.mm", "aten.bmm"}:
+            continue
+        opn = positional_params(h.fn)[0]
+        seen = set()
+        for p in paths_of(h.fn):
+            exprs = [p.end[1]] if p.end[1] is not None else []
+            for ef in p.effects:
+                exprs += [x for x in ef if isinstance(x, ast.AST)]
+            for e in exprs:
+                for c in ast.walk(e):
+                    if not (isinstance(c, ast.Call) and (U(c.func) == opn or U(c.func) in ("torch.matmul", "torch.bmm", "torch.mm")) or isinstance(c, ast.BinOp) and isinstance(c.op, ast.MatMult)):
+                        continue
+                    operands = c.args if isinstance(c, ast.Call) else [c.left, c.right]
+                    for a in operands:
+                        t = U(a)
+                        if "._data" not in t or (t, getattr(c, "lineno", 0)) in seen:
+                            continue
+                        seen.add((t, getattr(c, "lineno", 0)))
+                        d = None
+                        if isinstance(a, ast.Call) and isinstance(a.func, ast.Attribute) and a.func.attr in ("to", "type") and (a.args or a.keywords):
+                            d = U(a.args[0]) if a.args else U(a.keywords[0].value)
+                        elif isinstance(a, ast.Call) and isinstance(a.func, ast.Attribute) and a.func.attr in ("float", "double", "half", "bfloat16"):
+                            d = {"float": "torch.float32", "double": "torch.float64", "half": "torch.float16", "bfloat16": "torch.bfloat16"}[a.func.attr]
+                        if d is None:
+                            continue  # a raw payload handed over as it is: the typing of the route decides (integer GEMM)
+                        n += 1
+                        chk.require(rule, f"{h.mi.rel}:{getattr(c, 'lineno', h.fn.lineno)}", d in wide, f"{h.name}: raw payload `{t[:50]}` enters the contraction as {d} (float32 or wider)", h.name, f"{h.name} accumulates raw codes in a narrow dtype",
+                                    "exact small-integer operands: a dot product of 5 terms needs more than the 8 significant bits of bfloat16 (error 63 on codes of magnitude 100); float16 overflows beyond 65504")
+    chk.floor(rule, n, 2, "payload casts in front of the mm / bmm contractions")
+
+
 ITEMSIZE = {"torch.int8": 1, "torch.uint8": 1, "torch.float8_e4m3fn": 1, "torch.float8_e5m2": 1, "torch.float8_e4m3fnuz": 1, "torch.float8_e5m2fnuz": 1,
             "torch.float16": 2, "torch.bfloat16": 2, "torch.int16": 2, "torch.float32": 4, "torch.int32": 4, "torch.float64": 8, "torch.int64": 8}
 
@@ -393,16 +435,53 @@ def linear_forward(chk, helper_nodes):
             raise lb.Unknown(errs[0][1])
         return oks[0][1]
 
+    # the entry point is the function registered for torch.nn.functional.linear: its guards decide what reaches QTensorLinear.forward
+    disp = [x for x in handlers(repo)["qfunc"] if any(o.endswith("functional.linear") for o in x.ops)]
+    dfn = disp[0].fn if disp else None
+
+    def apply_fn(a, w, b_=None):
+        res_ = Interp(fwd, {ctxn: Obj(), inp: a, oth: w, bias: b_, "qbytes_mm": qbytes_mm_op}, helper_nodes).run()
+        errs_ = [r_ for r_ in res_ if r_[0] in ("typeerr", "unknown")]
+        if errs_:
+            if errs_[0][0] == "typeerr":
+                raise lb.TypeErr(errs_[0][1])
+            raise lb.Unknown(errs_[0][1])
+        return [r_ for r_ in res_ if r_[0] == "ok"][0][1]
+
+    def typed(x, wq, b):
+        if dfn is None:
+            return Interp(fwd, {ctxn: Obj(), inp: x, oth: wq, bias: b, "qbytes_mm": qbytes_mm_op}, helper_nodes).run()
+        dp = positional_params(dfn)
+        env_ = {dp[0]: lb.Opaque("func"), dp[1]: x, dp[2]: wq, dp[3]: b, ci.name: Obj(apply=apply_fn), "qbytes_mm": qbytes_mm_op}
+        return Interp(dfn, env_, helper_nodes).run()
+
     n = 0
+    wscales = weight_scales()
+    in_kinds = ["float", "quantized"]
+    if chk.pid in ("C07", "C05"):
+        # a 2-D weight quantized along its last axis: one scale per INPUT feature, i.e. along the contracted dimension
+        wscales = wscales + [("per-axis(-1)", (ONE, L("in")), -1)]
+    if chk.pid == "C05":
+        # C05 quantifies over per-axis 8-bit operands on either side (activations produced by the library are per-tensor: C07 / C08 stop there)
+        in_kinds += ["quantized per-axis(0)", "quantized per-axis(-1)"]
     for r in ranks:
-        for sdesc, slabels, axis in weight_scales():
-            for in_kind in ("float", "quantized"):
+        for sdesc, slabels, axis in wscales:
+            for in_kind in in_kinds:
                 for has_bias in (True, False):
-                    x = Q(batch(r) + (L("in"),), None, (), "input") if in_kind == "quantized" else T(batch(r) + (L("in"),), "float", "input")
+                    xl = batch(r) + (L("in"),)
+                    if in_kind == "quantized":
+                        x = Q(xl, None, (), "input")
+                    elif in_kind == "quantized per-axis(0)":
+                        if r == 0:
+                            continue
+                        x = Q(xl, 0, (xl[0],) + (ONE,) * (len(xl) - 1), "input")
+                    elif in_kind == "quantized per-axis(-1)":
+                        x = Q(xl, -1, (ONE,) * (len(xl) - 1) + (xl[-1],), "input")
+                    else:
+                        x = T(xl, "float", "input")
                     wq = Q((L("out"), L("in")), axis, slabels, "other")
                     b = T((L("out"),), "float", "bias") if has_bias else None
-                    env = {ctxn: Obj(), inp: x, oth: wq, bias: b, "qbytes_mm": qbytes_mm_op}
-                    res = Interp(fwd, env, helper_nodes).run()
+                    res = typed(x, wq, b)
                     want = batch(r) + (L("out"),)
                     what = f"{in_kind} rank-{r + 1} input, {sdesc} weight, bias={has_bias}"
                     site = f"{mi.rel}:{fwd.lineno}"
@@ -445,8 +524,79 @@ def linear_forward(chk, helper_nodes):
         hp = positional_params(h[0].fn)
         for p in paths_of(h[0].fn):
             if p.end[0] == "return":
-                ok = U(p.end[1]) == f"QTensorLinear.apply({hp[1]}, {hp[2]}, {hp[3]})"
+                ok = dispatch_args_ok(p.end[1], hp)
                 chk.require("C07.R1", f"{h[0].mi.rel}:{p.end[2]}", ok, f"linear dispatch passes (input, other, bias) in order: `{U(p.end[1])}`", h[0].name, "linear dispatch arguments", "any quantized linear: weight and input swapped or bias dropped")
+
+
+def scale_products(chk, rule="C07.R10"):
+    """Every product of the scales of two different tensors, anywhere in the package, has both factors converted to float32 first."""
+    import re
+    repo = chk.repo
+    n = 0
+    seen = set()
+
+    def scale_of(e):
+        """(tensor name, converted to float32?) if e is `<t>._scale`, possibly converted"""
+        t = U(e)
+        m = re.fullmatch(r"(\w+)\._scale", t)
+        if m:
+            return m.group(1), False
+        m = re.fullmatch(r"(\w+)\._scale\.(?:to\((?:dtype=)?torch\.(?:float32|float)\)|float\(\))", t)
+        if m:
+            return m.group(1), True
+        return None
+
+    for mi in repo.modules.values():
+        if not mi.rel.startswith("optimum/"):
+            continue
+        for fn in [x for x in ast.walk(mi.tree) if isinstance(x, ast.FunctionDef)]:
+            if "_scale" not in U(fn):
+                continue
+            try:
+                ps = paths_of(fn)
+            except AnalysisError:
+                continue
+            for p in ps:
+                exprs = [p.end[1]] if p.end[1] is not None else []
+                for ef in p.effects:
+                    exprs += [x for x in ef if isinstance(x, ast.AST)]
+                for e in exprs:
+                    for nd in ast.walk(e):
+                        if not (isinstance(nd, ast.BinOp) and isinstance(nd.op, ast.Mult)):
+                            continue
+                        # flatten a chain a * b * c
+                        fac = []
+
+                        def flat(x):
+                            if isinstance(x, ast.BinOp) and isinstance(x.op, ast.Mult):
+                                flat(x.left)
+                                flat(x.right)
+                            else:
+                                fac.append(x)
+                        flat(nd)
+                        sc = [scale_of(x) for x in fac]
+                        sc = [x for x in sc if x]
+                        if len({x[0] for x in sc}) < 2:
+                            continue
+                        key = (mi.rel, fn.name, U(nd))
+                        if key in seen:
+                            continue
+                        seen.add(key)
+                        n += 1
+                        ok = all(c for _, c in sc)
+                        qn = fn.name
+                        chk.require(rule, f"{mi.rel}:{getattr(nd, 'lineno', fn.lineno)}", ok, f"{qn}: scale product `{U(nd)[:80]}` has both factors in float32", qn, "scale product in the working dtype",
+                                    "float16 activations and weights of small magnitude (|x| ~ 0.05, |w| ~ 0.02): the scales are ~4e-4 and ~1.6e-4, their float16 product 6e-8..1e-6 is subnormal, and the output is off by several per cent (25% for |x| ~ 0.02, |w| ~ 0.005)")
+    chk.floor(rule, n, 3, "products of two scales")
+
+
+def dispatch_args_ok(e, hp):
+    """`QTensorLinear.apply(a, b, c)` where a / b are the handler's input / weight parameter, as it is or dequantized (a straight-through
+    identity for values and gradients), and c is the bias parameter: nothing swapped, nothing else substituted."""
+    if not (isinstance(e, ast.Call) and U(e.func) == "QTensorLinear.apply" and len(e.args) == 3 and not e.keywords):
+        return False
+    got = [U(a) for a in e.args]
+    return got[0] in (hp[1], f"{hp[1]}.dequantize()") and got[1] in (hp[2], f"{hp[2]}.dequantize()") and got[2] == hp[3]
 
 
 def operand_invariants(chk):
@@ -513,6 +663,10 @@ def mm_handlers(chk, r1="C07.R1", r2="C07.R2", r5="C07.R5"):
         for (di, si, ai), (do, so, ao) in itertools.product(scale_opts_in, scale_opts_oth):
             x = Q(lead + (L("n"), L("m")), ai, si, "input")
             y = Q(lead + (L("m"), L("p")), ao, so, "other")
+            if ai is None:
+                x.data.strides = {"stride0"}  # a per-tensor operand may be the result of expand(): stride 0 along a dimension
+            if ao is None:
+                y.data.strides = {"stride0"}
 
             def op_fn(a, b, _is_b=is_b):
                 for z in (a, b):
@@ -534,7 +688,7 @@ def mm_handlers(chk, r1="C07.R1", r2="C07.R2", r5="C07.R5"):
             for status, val, trace in res:
                 path = ", ".join(f"{'' if v else 'not '}{t[:30]}" for t, v in trace)
                 if status == "typeerr":
-                    rule = r2 if "not matched by its scales" in val else r1
+                    rule = r2 if "not matched by its scales" in val else (r5 if "(platform table)" in val and "without contiguous()" in val else r1)
                     chk.bad(rule, site, h.name, f"{h.name}: input {di}, other {do}: {_gen(val)}"[:140], f"{what} (path: {path[:100]}): {val}",
                             f"{'torch.bmm' if is_b else 'torch.mm'} of a {di} qint8 operand with a {do} qint8 operand that takes the raw-code route: the scale along the contracted axis is applied to the output (silently wrong when sizes coincide, RuntimeError otherwise)")
                 elif status == "unknown":
